@@ -2,6 +2,7 @@ package main
 
 import (
 	"fmt"
+	"path/filepath"
 	"sort"
 	"strings"
 
@@ -130,6 +131,83 @@ func c08(args []string) {
 		}
 		cfg := Cfg{Buf: []int{1, 3, 128}[rng.Intn(3)], Procs: []int{1, 2, 4}[rng.Intn(3)], Sched: fmt.Sprintf("%d,300,800", rng.Intn(1<<30))}
 		jobs = append(jobs, &job{s, bh, cfg, stages, fanin})
+	}
+	// several sub-streams arriving on one joined in-port: one task per sub-stream, emitted in the order the
+	// carrier IPs arrived, although an earlier sub-stream completes later than the following ones
+	nmj := c.Pick(10, 60)
+	mjRes := make([]string, nmj)
+	run.Parallel(nmj, func(i int) {
+		root := c.CaseDir()
+		defer c.Drop(root)
+		s := &spec.Spec{Name: fmt.Sprintf("multijoin%d", i), MaxTasks: 8, Sources: map[string]string{}}
+		bh := vproto.Behaviours{}
+		k := 2 + i%3
+		for u := 0; u < k; u++ {
+			src := &spec.Proc{Name: fmt.Sprintf("ms%d", u), Kind: spec.KFileSource}
+			for x := 0; x < 2; x++ {
+				f := fmt.Sprintf("mj%d_%d.txt", u, x)
+				src.Files = append(src.Files, f)
+				s.Sources[f] = f
+			}
+			w := fmt.Sprintf("mw%d", u)
+			sl := "5"
+			if u == i%k {
+				sl = "180" // this sub-stream completes long after the others
+			}
+			bh[w] = map[string]string{"sleep": sl}
+			s.Procs = append(s.Procs, src, &spec.Proc{Name: w, Kind: spec.KCmd, Cmd: spec.BuildCmd(w, []spec.PortDecl{{Name: "in"}}, []spec.PortDecl{{Name: "out"}}, nil, nil, nil)},
+				&spec.Proc{Name: fmt.Sprintf("mss%d", u), Kind: spec.KSubStream})
+			s.Conns = append(s.Conns, &spec.Conn{From: src.Name + ".out", To: w + ".in"}, &spec.Conn{From: w + ".out", To: fmt.Sprintf("mss%d.in", u)},
+				&spec.Conn{From: fmt.Sprintf("mss%d.substream", u), To: "RCAR.in"})
+		}
+		s.Procs = append(s.Procs, &spec.Proc{Name: "RCAR", Kind: spec.KRecorder},
+			&spec.Proc{Name: "MJ", Kind: spec.KCmd, Cmd: spec.BuildCmd("MJ", []spec.PortDecl{{Name: "in", Join: "space"}}, []spec.PortDecl{{Name: "out"}}, nil, nil, nil),
+				Outs: []*spec.Out{{Port: "out", Pattern: "mj.{i:in|basename}.out"}}},
+			&spec.Proc{Name: "ROUT", Kind: spec.KRecorder})
+		s.Conns = append(s.Conns, &spec.Conn{From: "RCAR.out", To: "MJ.in"}, &spec.Conn{From: "MJ.out", To: "ROUT.in"})
+		cfg := Cfg{Buf: []int{1, 3, 128}[i%3], Procs: []int{2, 4}[i%2]}
+		res := execSpec(c, root, s, cfg, bh, false, 0)
+		if res.Hang != "" {
+			if strings.HasPrefix(res.Hang, "deadlock") {
+				c.Violation("multijoin-hang", res.Hang+"\n"+res.HangInfo, map[string]interface{}{"spec": s, "cfg": cfg})
+			} else {
+				c.Inconclusive(res.Hang)
+			}
+			return
+		}
+		if res.Exit != 0 || !res.Returned {
+			c.Violation("multijoin-run-failed", fmt.Sprintf("exit %d: %s", res.Exit, tail(res.Output(), 500)), map[string]interface{}{"spec": s, "cfg": cfg})
+			return
+		}
+		ti := mon.Index(res.Trace)
+		car, outs := recPaths(ti, "RCAR"), recPaths(ti, "ROUT")
+		ok := len(car) == k && len(outs) == k
+		for x := 0; ok && x < k; x++ {
+			if !strings.Contains(outs[x], filepath.Base(car[x])) {
+				ok = false
+			}
+		}
+		if !ok {
+			c.Violation("order-not-preserved:sub-streams-on-joined-port", fmt.Sprintf("sub-stream carriers arrived as %v, so their tasks' outputs must leave in that order, but left as %v", car, outs), map[string]interface{}{"spec": s, "cfg": cfg, "behav": bh})
+			return
+		}
+		// non-trivial: the slow sub-stream's carrier was not the last to arrive, so a later task could have overtaken it
+		slow := fmt.Sprintf("mj%d_", i%k)
+		for x := 0; x+1 < len(outs); x++ {
+			for _, e := range ti.Starts {
+				for _, st := range e {
+					if st.ID == "MJ" && strings.Contains(strings.Join(st.Argv, " "), slow) && strings.Contains(strings.Join(st.Argv, " "), filepath.Base(outs[x])) {
+						mjRes[i] = fmt.Sprintf("multijoin|%d|%v|slow-substream-at-position-%d", k, cfg, x)
+					}
+				}
+			}
+		}
+		c.Count("multi_substream_join_runs", 1)
+	})
+	for _, r := range mjRes {
+		if r != "" {
+			c.Nontrivial(r)
+		}
 	}
 	run.Parallel(len(jobs), func(i int) {
 		j := jobs[i]
